@@ -125,7 +125,15 @@ def main_check(pid, spec, tier, seed, replay=None):
         if not ok:
             log("gen_consts failed:\n" + out)
             run.notes.append("gen_consts failed")
-        proof = core.proof_gate(pid)
+        proof = None
+        for pf in getattr(spec, "PROPERTY_FILES", [pid]):
+            r = core.proof_gate(pf)
+            if proof is None:
+                proof = r
+            else:
+                proof = {"ok": proof["ok"] and r["ok"], "theorems": proof["theorems"] + r["theorems"],
+                         "closed": proof["closed"] + r["closed"], "axioms": sorted(set(proof["axioms"]) | set(r["axioms"])),
+                         "log": proof["log"] if not proof["ok"] else r["log"]}
         if not proof["ok"]:
             log("PROOF GATE FAILED for %s:\n%s" % (pid, proof["log"]))
         okd, outd = core.build_driver()
